@@ -101,7 +101,9 @@ def _one_exit(chk, fi, ex, rules):
                               "final status %r / return value %r not determined" % (f["status"], ret), imprecise=True))
         else:
             hf = status in oracle.HAS_FAILED
-            if ret == (not hf):
+            # no false green: a failed/error-class step must return False; no false red: False is
+            # only returned for a failed/error-class step or an undefined one (dry-run discovery)
+            if (hf and ret is False) or (not hf and (ret is True or status in oracle.UNDEFINED_CLASS)):
                 chk.ok("V1", {"status": status, "returns": ret}, nontrivial_key=(status, ret))
             else:
                 chk.fail(_finding("V1", fi, ex, "status=%s returns=%s" % (status, ret),
